@@ -5,7 +5,14 @@ P = {
  "C01": ("model_checking", "4.C01", "complete product: (single-chunk content x storage form x sharing mode)^2, (key-alignment pattern)^2, (key-search family)^2 x {And,Or,Xor,AndNot} x {static,in-place} + 3 shortcuts, plus self-application; every case is an execution of the real code compared with a bitset model", "explicit enumeration of operand pairs (explicit-state product) against a reference model"),
  "C02": ("model_checking", "4.C02", "explicit-state BFS over mutation histories of the real Bitmap: fixpoint (all histories of any length) on the 8-cell one-chunk alphabets, depth-bounded on the wide / multi-chunk / many-key alphabets; canonical state = content + chunk kinds, cached cardinalities, COW flags, capacities", "explicit-state BFS to fixpoint over operation histories, reference model per step"),
  "C03": ("model_checking", "4.C03", "every corpus state (all chunk kinds, sharing modes, key layouts) x every scalar query x a boundary argument alphabet; Equals over all corpus pairs; popcount kernels over all lengths 0..N x 5 ops x word alphabet", "exhaustive state x argument product against a sorted-list model"),
+ "C04": ("model_checking", "4.C04", "every corpus state x full drains, every early-stop position class, all NextMany buffer-length sequences up to depth 2/3, all HasNext/Next/PeekNext/AdvanceIfNeeded call sequences up to length 4/5 against a model cursor, all unset windows over boundary pairs", "exhaustive enumeration of iterator call sequences (protocol machine) against a model cursor"),
+ "C05": ("model_checking", "4.C05", "corpus x 4 writers x 5 decoders x 4 receiver histories; every reader chunking with <= 2 deviations from 'deliver everything' x 2 EOF styles; every writer failure offset x 2 failure modes; depth-1 operation sweep on every decoded bitmap", "deviation-bounded exhaustive enumeration of environment answers (reader chunkings, writer faults) on the real codec"),
+ "C06": ("model_checking", "4.C06", "write direction: every corpus state's bytes through an independent decoder written from the format specification that asserts every layout rule; read direction: every corpus content x 9 legal encoder choices x 5 decoders", "exhaustive product against an independent implementation of the format specification"),
  "C09": ("model_checking", "4.C09", "Validate()==nil and an independent invariant walk in every state reached by the C02 closures and every result of the C01 products, plus portable/frozen round trips", "explicit-state BFS + product, invariant checked in every reached state"),
+ "C13": ("model_checking", "4.C13", "corpus x {Freeze, FreezeTo into 4 buffer sizes, WriteFrozenTo} byte-compared and parsed by an independent frozen-layout decoder; WriteFrozenTo under every writer failure offset; FrozenView x all mutation sequences <= 2 with an explicit GC event after every step (GODEBUG=clobberfree=1)", "exhaustive product + bounded operation sequences with explicit GC events"),
+ "C14": ("model_checking", "4.C14", "size <= README bound and <= BoundSerializedSizeInBytes in every state of the C02 closures (fixpoint on S1), every corpus state, every result of the binary operations over the pools and of AddOffset64/Flip, before and after RunOptimize", "explicit-state BFS to fixpoint + product, invariant in every reached state"),
+ "C15": ("model_checking", "4.C15", "all bitmaps over 4/5 keys x 7 chunk shapes x 2 storage modes, and the corpus, x 4 functions x every boundary target in present, absent and gap chunks", "exhaustive state x target product against a linear-scan model"),
+ "C16": ("model_checking", "4.C16", "offset pool x ~60 offsets (chunk-aligned and not, across 0 and 2^32); corpus x all boundary flip ranges (static vs in-place); dense conversions of every corpus state; FromDense over 12 lengths x 8 word patterns x copy mode with the caller's words in PROT_READ memory and a depth-1 mutation sweep", "exhaustive product with fault-detecting caller memory"),
 }
 checks=[]
 for pid,(lvl,ref,text,tech) in sorted(P.items()):
